@@ -33,7 +33,7 @@ REQUIRED_CLASSES = ["Polygon:valid", "Polygon:crossing", "Polygon:duplicate", "P
                     "ConvexPolygon:valid", "ConvexPolygon:interior-point", "ConvexSpheropolygon:valid", "ConvexPolyhedron:valid",
                     "ConvexPolyhedron:interior-point", "ConvexSpheropolyhedron:negative-radius", "Circle:nonpositive",
                     "Ellipsoid:nonpositive", "Polyhedron:valid", "malformed:one-dimensional", "malformed:three-dimensional", "malformed:Nx4",
-                    "malformed:empty-list", "Polygon:valid:first-three-collinear-no-normal"]
+                    "malformed:empty-list", "Polygon:valid:first-three-collinear-no-normal", "Polygon:crossing:star", "convex2d:listing:star-step"]
 
 
 def ncases(tier):
@@ -274,9 +274,28 @@ def _run_case(i, rng, rec, tier, state):
             expect_valid(rec, st, "Polygon:valid", lambda: cs.Polygon(container(rng, V)), dict(info, normal_arg=None))
         if (not c["ccw"]) or (not c["convex"]) or c["tilted"]:
             rec.nontriv("Polygon", V, c["normal_arg"])
-        sib = int(rng.integers(4))
+        sib = int(rng.integers(5))
         n = len(V)
-        if sib == 0 and n >= 4:
+        if sib == 4:
+            # star polygon {n/k}: points in convex position visited with a step k coprime to n - every corner turns the same
+            # way although the cycle winds k times and crosses itself (pentagram, heptagrams ...)
+            for _ in range(20):
+                xy0 = gen.convex_polygon_2d(rng, int(rng.integers(5, 12))) * c["size"]
+                lst = geom.star_listing(rng, len(xy0))
+                if lst is None:
+                    continue
+                xy = xy0[lst] if rng.random() < 0.5 else xy0[lst][::-1]
+                if geom.polygon_crosses_exact(xy) and geom.polygon_min_feature(xy)[1] > 1e-3:
+                    e1, e2, nn = geom.plane_frame(c["normal"])
+                    W = V.mean(0) + xy[:, :1] * e1 + xy[:, 1:2] * e2
+                    if not c["tilted"]:
+                        W = np.column_stack((xy + V[:, :2].mean(0), np.full(len(xy), V[0, 2])))
+                    rec.cls("Polygon:crossing:star")
+                    # (judged under the mechanism names of any crossing cycle: the sweep's AssertionError finding is one defect)
+                    expect_invalid(rec, "Polygon:crossing", lambda: cs.Polygon(container(rng, W), normal=narg), dict(info, vertices=W, star=True))
+                    rec.nontriv("Polygon:crossing:star", W)
+                    break
+        elif sib == 0 and n >= 4:
             # crossing cycle: swap two non-adjacent vertices until a proper crossing is certified
             for _ in range(20):
                 a, b = sorted(rng.choice(n, size=2, replace=False))
@@ -314,6 +333,11 @@ def _run_case(i, rng, rec, tier, state):
         sgn = float(rng.choice([-1, 1]))
         nrm = plane_n * sgn
         perm = rng.permutation(len(V))
+        star = geom.star_listing(rng, len(V)) if rng.random() < 0.25 else None
+        if star is not None:
+            # a listing whose every corner turns the same way but which is not the boundary order (winds k times)
+            perm = np.array(star if rng.random() < 0.5 else star[::-1])
+            rec.cls("convex2d:listing:star-step")
         use_sphero = rng.random() < 0.4
         rad = float(rng.choice([0.0, 0.3, 2.0]))
         narg = np.array(nrm) if rng.random() < 0.7 else None
